@@ -189,19 +189,30 @@ func runC02(a *A) {
 			return ok && fieldAddrIs(st.Addr, le)
 		}
 		var escape ssa.Instruction
+		farFuture := a.MethodOpt("window", "Watermark", "IsFarFuture")
+		// with the far-future test answered "no" (the timestamp is not beyond the ceiling), no path reaches a
+		// return without the refresh
+		notFar := func(v ssa.Value) Tri {
+			if c, ok := v.(*ssa.Call); ok {
+				if farFuture != nil && c.Call.StaticCallee() == farFuture {
+					return F
+				}
+				if timeMethod(&c.Call) == "After" && len(c.Call.Args) == 2 {
+					if _, isParam := resolveBound(c.Call.Args[0]).(*ssa.Parameter); isParam {
+						if strings.Contains(TermOf(c.Call.Args[1], nil).String(), "maxFutureSlack") || guardLooksLikeCeiling(c.Call.Args[1]) {
+							return F
+						}
+					}
+				}
+			}
+			return U
+		}
 		for _, b := range fn.Blocks {
 			ret, ok := b.Instrs[len(b.Instrs)-1].(*ssa.Return)
 			if !ok {
 				continue
 			}
-			farFuture := a.MethodOpt("window", "Watermark", "IsFarFuture")
-			if guardedByValue(b, func(v ssa.Value) bool {
-				c, ok := v.(*ssa.Call)
-				return ok && (timeMethod(&c.Call) == "After" || (farFuture != nil && c.Call.StaticCallee() == farFuture))
-			}, true) {
-				continue // the far-future return
-			}
-			if reachableFrom(fn.Blocks[0], 0, func(in ssa.Instruction) bool { return in == ssa.Instruction(ret) }, isStore) != nil {
+			if reachOnSomePathAvoiding(fn, ret, notFar, isStore) {
 				escape = ret
 			}
 		}
@@ -770,6 +781,12 @@ func (a *A) ruleLateUpdateIdentity() {
 // path where Watermark.IsFarFuture(ts) returned true. Otherwise such a row, arriving first, pins the
 // first interval in the far future and nothing is ever delivered; in a session window it becomes the
 // key's open session and swallows every later row.
+// guardLooksLikeCeiling: v is <time>.Add(d) - the far-future ceiling now + maxOutOfOrderness + slack
+func guardLooksLikeCeiling(v ssa.Value) bool {
+	c, ok := v.(*ssa.Call)
+	return ok && timeMethod(&c.Call) == "Add"
+}
+
 func (a *A) ruleFarFutureDropped(W *types.Named, add *ssa.Function) {
 	wmF := a.FieldOf(W, "watermark")
 	insert := a.insertionInstrs(W, add)
@@ -787,6 +804,9 @@ func (a *A) ruleFarFutureDropped(W *types.Named, add *ssa.Function) {
 		evConst = constant.StringVal(c.Val())
 	}
 	assume := func(v ssa.Value) Tri {
+		if a.wmVerdict(v) == "far" {
+			return T
+		}
 		switch x := v.(type) {
 		case *ssa.Call:
 			if f := x.Call.StaticCallee(); f != nil && f.Name() == "IsFarFuture" {
@@ -812,10 +832,13 @@ func (a *A) ruleFarFutureDropped(W *types.Named, add *ssa.Function) {
 	}
 	var bad ssa.Instruction
 	for _, t := range targets {
-		if reachUnder(add, t, assume) {
+		if reachUnder(add, t, assume) && reachOnSomePath(add, t, assume) {
 			bad = t
 			break
 		}
+	}
+	if hb, _ := a.newWatermarkHelperFeedsFarFuture(add); hb != nil && bad == nil {
+		bad = hb
 	}
 	if bad == nil {
 		a.Ok(construct, add.Pos(), "with a far-future timestamp none of the %d row insertions / watermark updates of the event-time path is reachable", len(targets))
@@ -848,3 +871,227 @@ func (a *A) paramAlways(t *Term, pred func(*Term) bool) bool {
 }
 
 func isTimeMethodCall(c *ssa.Call) bool { return timeMethod(&c.Call) != "" }
+
+// ---------------------------------------------------------------------------------------------------
+// Watermark verdicts carried by values. The rules of the event-time path ask two questions about a
+// row's timestamp - is it late (behind the watermark), is it far-future (beyond the ceiling, ignored) -
+// and know the two methods that answer them. A helper that was written later (not in the inventory,
+// and not inlinable because it defers) may answer them too: `farFuture, late := wm.Observe(ts)`. Its
+// results are classified by what the helper computes, not by its name: result k is a verdict of a kind
+// when every value it can return is (a) the kind's comparison itself - ts.Before(wm.currentWatermark)
+// / ts.After(<ceiling>.Add(...)), or a call of the known method -, (b) true where that comparison was
+// found true, or (c) false where it was found false (late: also where no watermark exists yet or the
+// timestamp was found far-future - such a row is dropped whatever the flag says).
+
+type wmSummary struct{ kinds map[int]string }
+
+func (a *A) wmAtomKind(v ssa.Value, f *ssa.Function) string {
+	c, ok := v.(*ssa.Call)
+	if !ok {
+		return ""
+	}
+	if cal := c.Call.StaticCallee(); cal != nil && cal.Signature.Recv() != nil && isNamedType(cal.Signature.Recv().Type(), windowPkg, "Watermark") {
+		switch cal.Name() {
+		case "IsEventTimeLate":
+			return "late"
+		case "IsFarFuture":
+			return "far"
+		}
+	}
+	if f == nil || len(c.Call.Args) != 2 {
+		return ""
+	}
+	if _, isParam := resolveBound(c.Call.Args[0]).(*ssa.Parameter); !isParam {
+		return ""
+	}
+	switch timeMethod(&c.Call) {
+	case "Before":
+		if strings.Contains(TermOf(c.Call.Args[1], nil).String(), "currentWatermark") {
+			return "late"
+		}
+	case "After":
+		if guardLooksLikeCeiling(c.Call.Args[1]) && strings.Contains(TermOf(c.Call.Args[1], nil).String(), "maxOutOfOrderness") {
+			return "far"
+		}
+	}
+	return ""
+}
+
+func (a *A) wmHelperSummary(f *ssa.Function) map[int]string {
+	out := map[int]string{}
+	if f == nil || f.Blocks == nil {
+		return out
+	}
+	type leaf struct {
+		v  ssa.Value
+		gs []Guard
+	}
+	nres := f.Signature.Results().Len()
+	leaves := make([][]leaf, nres)
+	var collect func(k int, v ssa.Value, gs []Guard, seen map[ssa.Value]bool)
+	collect = func(k int, v ssa.Value, gs []Guard, seen map[ssa.Value]bool) {
+		if phi, ok := v.(*ssa.Phi); ok && isBool(phi.Type()) {
+			if seen[v] {
+				return
+			}
+			seen[v] = true
+			for i, e := range phi.Edges {
+				collect(k, e, append(append([]Guard{}, gs...), guardsAtEnd(phi.Block().Preds[i], phi.Block())...), seen)
+			}
+			return
+		}
+		if u, ok := v.(*ssa.UnOp); ok && u.Op == token.NOT {
+			// a negated verdict is not a verdict
+			leaves[k] = append(leaves[k], leaf{v, gs})
+			return
+		}
+		leaves[k] = append(leaves[k], leaf{v, gs})
+	}
+	for _, b := range f.Blocks {
+		ret, ok := b.Instrs[len(b.Instrs)-1].(*ssa.Return)
+		if !ok || b == f.Recover {
+			continue
+		}
+		for k, r := range ret.Results {
+			if !isBool(r.Type()) {
+				continue
+			}
+			// results spilled to locals because the function defers: every store to the local is a returned value
+			if ld, ok := r.(*ssa.UnOp); ok && ld.Op == token.MUL {
+				if al, ok := ld.X.(*ssa.Alloc); ok {
+					for _, ref := range *al.Referrers() {
+						if st, ok := ref.(*ssa.Store); ok && st.Addr == ssa.Value(al) {
+							collect(k, st.Val, guardsOf(st.Block()), map[ssa.Value]bool{})
+						}
+					}
+					continue
+				}
+			}
+			collect(k, r, guardsOf(b), map[ssa.Value]bool{})
+		}
+	}
+	holds := func(gs []Guard, kind string, sense bool) bool {
+		for _, g := range gs {
+			v, s := g.Cond, g.Sense
+			for {
+				u, ok := v.(*ssa.UnOp)
+				if !ok || u.Op != token.NOT {
+					break
+				}
+				v, s = u.X, !s
+			}
+			if a.wmAtomKind(v, f) == kind && s == sense {
+				return true
+			}
+		}
+		return false
+	}
+	noWatermarkYet := func(gs []Guard) bool {
+		for _, g := range gs {
+			if c, ok := g.Cond.(*ssa.Call); ok && g.Sense && timeMethod(&c.Call) == "IsZero" && strings.Contains(TermOf(c.Call.Args[0], nil).String(), "currentWatermark") {
+				return true
+			}
+		}
+		return false
+	}
+	for k := 0; k < nres; k++ {
+		if len(leaves[k]) == 0 {
+			continue
+		}
+		for _, kind := range []string{"late", "far"} {
+			ok, positive := true, false
+			seenLeaf := map[ssa.Value]bool{}
+			for _, l := range leaves[k] {
+				if al, isAlloc := l.v.(*ssa.Alloc); isAlloc {
+					_ = al
+				}
+				if a.wmAtomKind(l.v, f) == kind {
+					positive = true
+					continue
+				}
+				if b, isK := constBool(l.v); isK {
+					switch {
+					case b && holds(l.gs, kind, true):
+						positive = true
+					case !b && holds(l.gs, kind, false):
+					case !b && kind == "late" && (noWatermarkYet(l.gs) || holds(l.gs, "far", true)):
+					default:
+						ok = false
+					}
+					continue
+				}
+				if seenLeaf[l.v] {
+					continue
+				}
+				seenLeaf[l.v] = true
+				ok = false
+			}
+			if ok && positive {
+				out[k] = kind
+			}
+		}
+	}
+	return out
+}
+
+// wmVerdict: v carries the watermark's verdict "late" or "far" on a timestamp (see above), else "".
+func (a *A) wmVerdict(v ssa.Value) string {
+	switch x := v.(type) {
+	case *ssa.Call:
+		return a.wmAtomKind(v, nil)
+	case *ssa.Extract:
+		c, ok := x.Tuple.(*ssa.Call)
+		if !ok {
+			return ""
+		}
+		cal := c.Call.StaticCallee()
+		if cal == nil || !isNewFunc(cal) || cal.Signature.Recv() == nil || !isNamedType(cal.Signature.Recv().Type(), windowPkg, "Watermark") {
+			return ""
+		}
+		return a.wmHelperSummary(cal)[x.Index]
+	case *ssa.Phi:
+		// `late := false; if eventTime { _, late = wm.Observe(ts) }`: false, or a verdict of one kind
+		kind := ""
+		for _, l := range phiLeaves(v) {
+			if b, isK := constBool(l); isK && !b {
+				continue
+			}
+			k := a.wmVerdict(l)
+			if k == "" || (kind != "" && k != kind) {
+				return ""
+			}
+			kind = k
+		}
+		return kind
+	}
+	return ""
+}
+
+// ruleNewWatermarkHelpersIgnoreFarFuture: a helper of Watermark unknown to the inventory that window code
+// calls and that writes the watermark's bookkeeping must not do so for a far-future timestamp: its writes are
+// unreachable once its own far-future comparison was found true.
+func (a *A) newWatermarkHelperFeedsFarFuture(add *ssa.Function) (ssa.Instruction, int) {
+	wmT := a.Named("window", "Watermark")
+	n := 0
+	var bad ssa.Instruction
+	allInstrs(add, func(in ssa.Instruction) {
+		cal := staticCallee(in)
+		if cal == nil || !isNewFunc(cal) || cal.Signature.Recv() == nil || !isNamedType(cal.Signature.Recv().Type(), windowPkg, "Watermark") {
+			return
+		}
+		for _, name := range []string{"maxEventTime", "currentWatermark", "lastEventTime"} {
+			for _, st := range storesToField(cal, a.FieldOf(wmT, name)) {
+				n++
+				if reachUnder(cal, st, func(v ssa.Value) Tri {
+					if a.wmAtomKind(v, cal) == "far" {
+						return T
+					}
+					return U
+				}) {
+					bad = st
+				}
+			}
+		}
+	})
+	return bad, n
+}
